@@ -270,79 +270,66 @@ deriving DecidableEq, Repr
 
 structure Queue where
   cmds : List Cmd := []
+  /-- `CommandQueue.IsRunning` -/
   running : Bool := false
+  /-- ghost: ids in submission order -/
+  sub : List Nat := []
+  /-- ghost: ids in the order their processing started (`logCmdStart`) -/
+  started : List Nat := []
+  /-- ghost: ids in the order they were dequeued (completed) -/
+  done : List Nat := []
 deriving DecidableEq, Repr
 
-inductive Ev | start (q id : Nat) | done (q id : Nat) deriving DecidableEq, Repr
-
 structure St where
+  /-- all queues of all contexts, in the iteration order of `processNewCommand` -/
   qs : List Queue := []
-  /-- ghost: trace of start/complete events -/
-  log : List Ev := []
-  /-- ghost: per queue ids in submission order -/
-  sub : List (List Nat) := []
   nextId : Nat := 1
 deriving DecidableEq, Repr
 
 inductive Op
   | enq (q : Nat) (k : Kind)
-  | tick                 -- one `processNewCommand` pass over all queues in creation order
-  | rsp (q : Nat)        -- the LaunchKernelRsp of queue q's running head arrives
+  | tick                 -- one `processNewCommand` pass over all queues
+  | rsp (q : Nat)        -- the LaunchKernelRsp of queue q's running head is processed (`processLaunchKernelReturn`)
 deriving DecidableEq, Repr
 
-def init (n : Nat) : St := { qs := List.replicate n {}, sub := List.replicate n [] }
+def init (n : Nat) : St := { qs := List.replicate n {} }
 
-/-- `processNewCommandFromCmdQueue` for queue number `i` -/
-def procQueue (i : Nat) (q : Queue) : Queue × List Ev :=
+def enqQueue (id : Nat) (k : Kind) (q : Queue) : Queue :=
+  { q with cmds := q.cmds ++ [⟨id, k⟩], sub := q.sub ++ [id] }
+
+/-- `processNewCommandFromCmdQueue` -/
+def procQueue (q : Queue) : Queue :=
   match q.cmds with
-  | [] => (q, [])
+  | [] => q
   | c :: cs =>
-    if q.running then (q, [])
+    if q.running then q
     else match c.kind with
-      | .noop => ({ q with cmds := cs }, [.start i c.id, .done i c.id])
-      | .kern => ({ q with running := true }, [.start i c.id])
+      | .noop => { q with cmds := cs, started := q.started ++ [c.id], done := q.done ++ [c.id] }
+      | .kern => { q with running := true, started := q.started ++ [c.id] }
 
-def procAll : Nat → List Queue → List Queue × List Ev
-  | _, [] => ([], [])
-  | i, q :: qs =>
-    let (q', ev) := procQueue i q
-    let (qs', evs) := procAll (i + 1) qs
-    (q' :: qs', ev ++ evs)
-
-def rspQueue (i : Nat) (q : Queue) : Queue × List Ev :=
+/-- `processLaunchKernelReturn` for the head of the queue -/
+def rspQueue (q : Queue) : Queue :=
   match q.cmds with
-  | [] => (q, [])
-  | c :: cs => if q.running then ({ cmds := cs, running := false }, [.done i c.id]) else (q, [])
+  | [] => q
+  | c :: cs => if q.running then { q with cmds := cs, running := false, done := q.done ++ [c.id] } else q
+
+/-- apply `f` to the queue number `i` (no-op when there is no such queue) -/
+def updAt (f : Queue → Queue) : Nat → List Queue → List Queue
+  | _, [] => []
+  | 0, q :: qs => f q :: qs
+  | i + 1, q :: qs => q :: updAt f i qs
 
 def step (s : St) : Op → St
-  | .enq i k =>
-    if i < s.qs.length then
-      { s with qs := s.qs.modify i (fun q => { q with cmds := q.cmds ++ [⟨s.nextId, k⟩] }),
-               sub := s.sub.modify i (· ++ [s.nextId]), nextId := s.nextId + 1 }
-    else s
-  | .tick => let (qs', evs) := procAll 0 s.qs; { s with qs := qs', log := s.log ++ evs }
-  | .rsp i =>
-    match s.qs[i]? with
-    | none => s
-    | some q => let (q', evs) := rspQueue i q; { s with qs := s.qs.set i q', log := s.log ++ evs }
+  | .enq i k => if i < s.qs.length then { qs := updAt (enqQueue s.nextId k) i s.qs, nextId := s.nextId + 1 } else s
+  | .tick => { s with qs := s.qs.map procQueue }
+  | .rsp i => { s with qs := updAt rspQueue i s.qs }
 
 def run (s : St) (ops : List Op) : St := ops.foldl step s
 
-def started (i : Nat) (log : List Ev) : List Nat :=
-  log.filterMap fun | .start q id => if q = i then some id else none | _ => none
-def completed (i : Nat) (log : List Ev) : List Nat :=
-  log.filterMap fun | .done q id => if q = i then some id else none | _ => none
-
-def showEv : Ev → String
-  | .start q id => s!"s{q}.{id}"
-  | .done q id => s!"d{q}.{id}"
-
-def evQueue : Ev → Nat
-  | .start q _ => q
-  | .done q _ => q
+def showIds (l : List Nat) : String := joinWith "," (l.map toString)
 
 def showQ (q : Queue) : String :=
-  joinWith "," (q.cmds.map fun c => toString c.id) ++ (if q.running then "*" else "")
+  showIds (q.cmds.map (·.id)) ++ (if q.running then "*" else "") ++ "/" ++ showIds q.started ++ "/" ++ showIds q.done
 
 def parseOp (w : String) : Option Op :=
   match w.splitOn ":" with
@@ -398,7 +385,7 @@ def handle (line : String) : String :=
         match (rest.flatMap words).mapM Q.parseOp with
         | some ops =>
           let s := Q.run (Q.init n) ops
-          joinWith "|" (s.qs.map Q.showQ) ++ " ; " ++ joinWith " " (s.log.map Q.showEv)
+          joinWith " | " (s.qs.map Q.showQ)
         | none => "bad"
       | none => "bad"
     | _ => "bad"
